@@ -141,7 +141,7 @@ def errStr : Err → String
 def flagsStr (f : Flags) : String :=
   let parts := (if f.a then ["a"] else []) ++ (if f.b then ["b"] else []) ++ (if f.c then ["c"] else [])
     ++ (if f.d then ["d"] else []) ++ (if f.f then ["f"] else [])
-    ++ (if f.g then ["g"] else [])
+    ++ (if f.g then ["g"] else []) ++ (if f.j then ["j"] else [])
   if parts.isEmpty then "G" else ",".intercalate parts
 
 def formsStr (xs : List Sexp) : String := " ".intercalate (xs.map sexpStr)
